@@ -1,0 +1,29 @@
+//go:build verif
+// +build verif
+
+package os
+
+// Verification shims (build tag 'verif' only): the OS path mapping with an explicit operating system
+// convention, so that the Windows separator and volume rules can be exercised on any platform.
+
+// NewFSVerif returns an FS with the given root (as fs.Sub chains produce it) and volume name.
+func NewFSVerif(root, volumeName string) *FS {
+	return &FS{root: root, volumeName: volumeName}
+}
+
+// RootVerif returns the FS's root path.
+func (fs *FS) RootVerif() string { return fs.root }
+
+// ToOSPathVerif is toOSPath for the given GOOS and path separator.
+func (fs *FS) ToOSPathVerif(goos string, separator rune, fsPath string) (string, error) {
+	osPath, err := fs.toOSPath(goos, separator, osPathOp, fsPath)
+	if err != nil {
+		return "", err
+	}
+	return osPath, nil
+}
+
+// FromOSPathVerif is fromOSPath for the given GOOS, path separator and volume name function.
+func (fs *FS) FromOSPathVerif(goos string, separator rune, getVolumeName func(string) string, osPath string) (string, error) {
+	return fs.fromOSPath(goos, separator, getVolumeName, osPathOp, osPath)
+}
